@@ -5,7 +5,7 @@ use datasketches::common::ResizeFactor;
 use datasketches::countmin::CountMinSketch;
 use datasketches::cpc::CpcSketch;
 use datasketches::frequencies::FrequentItemsSketch;
-use datasketches::hll::{HllSketch, HllType};
+use datasketches::hll::{HllSketch, HllType, HllUnion};
 use datasketches::tdigest::TDigestMut;
 use datasketches::theta::ThetaSketch;
 
@@ -23,18 +23,19 @@ fn stream_item(kind: u64, i: u64, salt: u64) -> u64 {
     }
 }
 
-fn hll_stream(ctx: &mut Ctx, rng: &mut Rng, lg_k: u8, t: HllType, n: u64, kind: u64) {
-    let mut s = HllSketch::new(lg_k, t);
-    let salt = rng.next_u64();
+/// Size of one HLL image against the mode / type / lg_k the image itself declares. The exception list of an
+/// HLL_4 image is bounded too: a register is an exception when it is 15 or more above the minimum register; for
+/// hashed items the number of exceptions is close to Poisson with mean about k/2000 once n >> k (simulation of the
+/// textbook register law: mean 0.5 at lg_k 10, 2 at 12, 8.5 at 14, maximum 18 in 20 runs at lg_k 14). The bound
+/// 16 + k/256 is about eight times that mean plus 16 (an HLL_4 sketch whose list grows with the stream has lost
+/// its point).
+fn hll_image_size(ctx: &mut Ctx, img: &[u8], lg_k: u8, i: u64, what: &str) {
     let k = 1usize << lg_k;
-    let mut next = 1u64;
-    for i in 0..=n {
-        if i == next || i == n {
-            next *= 2;
-            let img = s.serialize();
+    {
+        {
             ctx.evals(1);
-            match spec::hll::decode(&img) {
-                Err(e) => ctx.violation("HLL image does not decode", format!("lg_k {} after {} items: {}", lg_k, i, e)),
+            match spec::hll::decode(img) {
+                Err(e) => ctx.violation("HLL image does not decode", format!("{} lg_k {} after {} items: {}", what, lg_k, i, e)),
                 Ok((im, _)) => {
                     let c = im.coupons.len();
                     let (want, cap_ok) = match im.mode {
@@ -52,12 +53,40 @@ fn hll_stream(ctx: &mut Ctx, rng: &mut Rng, lg_k: u8, t: HllType, n: u64, kind: 
                     if img.len() != want || !cap_ok {
                         ctx.violation(
                             "HLL image size is not what mode and lg_k dictate",
-                            format!("lg_k {} type {} mode {} after {} items: {} bytes, expected {} (coupons {}, aux {})", lg_k, im.target_bits, im.mode, i, img.len(), want, c, im.aux.len()),
+                            format!("{} lg_k {} type {} mode {} after {} items: {} bytes, expected {} (coupons {}, aux {})", what, lg_k, im.target_bits, im.mode, i, img.len(), want, c, im.aux.len()),
+                        );
+                    }
+                    if im.aux.len() > 16 + k / 256 {
+                        ctx.violation(
+                            "HLL_4 exception list grows beyond what hashed items can produce",
+                            format!("{} lg_k {} after {} items: {} exceptions (cur_min {}), {} bytes", what, lg_k, i, im.aux.len(), im.cur_min, img.len()),
                         );
                     }
                     ctx.cover(&format!("hll_mode_{}", im.mode));
                     ctx.cover_max("hll_max_aux_entries_over_k", im.aux.len() as f64 / k as f64);
+                    ctx.cover_max("hll_max_aux_entries_over_bound", im.aux.len() as f64 / (16 + k / 256) as f64);
                 }
+            }
+        }
+    }
+}
+
+fn hll_stream(ctx: &mut Ctx, rng: &mut Rng, lg_k: u8, t: HllType, n: u64, kind: u64) {
+    let mut s = HllSketch::new(lg_k, t);
+    let salt = rng.next_u64();
+    let mut next = 1u64;
+    for i in 0..=n {
+        if i == next || i == n {
+            next *= 2;
+            hll_image_size(ctx, &s.serialize(), lg_k, i, "sketch");
+            // the same stream seen through a union: the result in every type obeys the same size rule
+            if i >= 64 && (i == n || next.trailing_zeros() % 3 == 0) {
+                let mut u = HllUnion::new(lg_k);
+                u.update(&s);
+                for t2 in [HllType::Hll4, HllType::Hll6, HllType::Hll8] {
+                    hll_image_size(ctx, &u.to_sketch(t2).serialize(), lg_k, i, "union result");
+                }
+                ctx.cover("hll_union_results_measured");
             }
         }
         if i < n {
@@ -150,6 +179,24 @@ fn fi_stream(ctx: &mut Ctx, rng: &mut Rng, size: usize, n: u64, kind: u64) {
         }
     }
     ctx.cover_max("fi_max_active_over_capacity", a.num_active_items() as f64 / a.maximum_map_capacity() as f64);
+    // merging: a receiver (fresh or used) keeps its own bound whatever the configuration of what it receives
+    for fresh in [true, false] {
+        let rsize = 1usize << rng.range(3, 7);
+        let cap = rsize * 3 / 4;
+        let mut r: FrequentItemsSketch<u64> = FrequentItemsSketch::new(rsize);
+        if !fresh {
+            r.update(salt);
+        }
+        r.merge(&a);
+        ctx.evals(1);
+        if r.maximum_map_capacity() != cap || r.num_active_items() > cap || r.serialize().len() > 32 + 16 * cap {
+            ctx.violation(
+                "frequent items sketch exceeds its own capacity after a merge",
+                format!("receiver size {} ({}) merged a size {} sketch with {} items: capacity {} active {} image {} bytes", rsize, if fresh { "fresh" } else { "used" }, size, a.num_active_items(), r.maximum_map_capacity(), r.num_active_items(), r.serialize().len()),
+            );
+        }
+        ctx.cover("fi_merges_measured");
+    }
 }
 
 fn fixed_size_streams(ctx: &mut Ctx, rng: &mut Rng, n: u64, kind: u64) {
